@@ -115,6 +115,12 @@ def gen_antenna(rng, family=None, ground=None, max_pulses=36, tags='auto'):
         d1 = _unit(rng); d2 = _perp(rng, d1)
         a = org; b = _add(org, d1, n1 * seglen)
         W(n1, a, b, r=seglen / 150); wires[-1]['taper'] = [rng.choice([1, 2]), None, None]
+        if rng.random() < 0.4:
+            # limits: the taper saturates, so the wire has a uniform region next to the tapered one
+            wires[-1]['nseg'] = n1 = rng.randint(7, 11)
+            ln = n1 * seglen
+            wires[-1]['p2'] = b = _add(org, d1, ln)
+            wires[-1]['taper'] = [rng.choice([1, 2, 3]), ln / n1 * rng.uniform(0.05, 0.2), ln / n1 * rng.uniform(1.1, 1.6)]
         j = rng.choice([a, b])
         W(n2, j, _add(j, d2, n2 * seglen * rng.uniform(0.8, 1.3)), r=seglen / 80)
         for w in wires: flip(w)
